@@ -6,7 +6,6 @@ import (
 	"encoding/json"
 	"fmt"
 	"runtime"
-	"sort"
 	"strings"
 	"sync"
 	"testing"
@@ -206,17 +205,10 @@ func lastDeadlock(s *Sim) string {
 }
 
 func deadlockSite(s *Sim) string {
-	var parts []string
-	for _, t := range s.tasks {
-		if t.started && !t.done && t.pending != nil && t.pending.Kind == opLock {
-			parts = append(parts, t.EntryKind)
-		}
-	}
-	if len(parts) == 0 {
+	if s.deadlockAt == "" {
 		return "blocked-outside-seam"
 	}
-	sort.Strings(parts)
-	return "lock:" + strings.Join(parts, "+")
+	return s.deadlockAt
 }
 
 // panicSite: first go-fed/activity frame of the stack.
